@@ -158,7 +158,8 @@ func (n *maxNode) Next() (bool, error) {
 						case float64:
 							res = res.SetFloat64(v)
 						default:
-							return nil
+							// a null (or non-numeric) value does not take part, the running result is kept
+							return value
 						}
 						if value == nil || res.Cmp(value) > 0 {
 							return res
